@@ -6,14 +6,39 @@ from . import oracle
 _cache = {}
 
 
+class LazySummaries(dict):
+    """mnemonic -> Summary, computed on first use (a mnemonic outside the oracle that nobody asks about is never interpreted)."""
+
+    def __init__(self, facts):
+        super().__init__()
+        self.facts = facts
+
+    def __missing__(self, m):
+        if m not in self.facts.instructions():
+            raise KeyError(m)
+        self[m] = summarise_binding(self.facts, m)
+        return self[m]
+
+    def __contains__(self, m):
+        return m in self.facts.instructions()
+
+    def get(self, m, default=None):
+        try:
+            return self[m]
+        except KeyError:
+            return default
+
+    def items(self):
+        for m in self.facts.instructions():
+            if oracle_spec(m) is not None:
+                yield m, self[m]
+
+
 def all_summaries(facts):
     key = id(facts)
     if key not in _cache:
-        out = {}
-        for m in facts.instructions():
-            out[m] = summarise_binding(facts, m)
         _cache.clear()
-        _cache[key] = out
+        _cache[key] = LazySummaries(facts)
     return _cache[key]
 
 
